@@ -490,6 +490,11 @@ func (c *candidateBase) TypePreference() uint16 {
 			tcpPriorityOffset = c.agent().tcpPriorityOffset
 		}
 
+		// The type preference is unsigned: an offset above it floors at zero instead of wrapping around.
+		if tcpPriorityOffset > pref {
+			return 0
+		}
+
 		pref -= tcpPriorityOffset
 	}
 
